@@ -345,11 +345,13 @@ def _make_simlink_class():
                 self._fault_thread.daemon = True
                 self._fault_thread.start()
 
-        def _count(self):
+        def _count(self, sent_port=None):
             self.exchanged += 1
             w = self.world
             f = w.net.fault
-            if f and not w.fault_fired and self.session == f.get('session', 0) and self.exchanged >= f['k']:
+            # a fault is placed after the k-th exchanged packet, or (on_port) at the first packet the library sends on that port
+            if f and not w.fault_fired and self.session == f.get('session', 0) and (
+                    (sent_port is not None and sent_port == f['on_port']) if f.get('on_port') is not None else self.exchanged >= f['k']):
                 if f['reporter'] in ('driver', 'driver-quiet'):
                     if f['reporter'] == 'driver-quiet':
                         # the link is dead from this instant: nothing more is delivered or transmitted, and the error is
@@ -376,7 +378,7 @@ def _make_simlink_class():
                 return
             if w.on_send:
                 w.on_send(self, pk)
-            verdict = self._count()
+            verdict = self._count(port)
             if verdict == 'raise':
                 # the transport itself fails in the caller's face (broken pipe on a tcp/udp link)
                 w.fault_fired = True
